@@ -369,7 +369,11 @@ fn judge_point<const D: usize>(
             all_in = false;
             let sig = if x[j] == l {
                 format!("{}/outside-box/equals-period", ctx_sig)
-            } else if c == Cong::Perturbed {
+            } else if c == Cong::Perturbed || (extra > 0.0 && c != Cong::No && (x[j] < 0.0 || x[j] > l)) {
+                // canonicalisation (rem_euclid) never yields a negative value or one above the period:
+                // a congruent stored value strictly outside [0, L] was moved there afterwards by the
+                // retry perturbation, also when the displacement is below the rounding allowance of a
+                // large period
                 format!("{}/outside-box/perturbed", ctx_sig)
             } else {
                 format!("{}/outside-box", ctx_sig)
@@ -535,7 +539,7 @@ where
                 (false, true) => "large",
                 (true, true) => "mixed",
             };
-            let sig = format!("wrap/cert/{}/{}", scale, cert.aspect());
+            let sig = format!("wrap/cert/{}/{:?}/{}", scale, gu, cert.aspect());
             rep.violation(&sig, format!("result of .toroidal({:?}) is not a certified triangulation of its (wrapped) vertices: {}", domain, cert.summary()), json!({"failures": cert.summary()}));
         }
     }
